@@ -435,8 +435,12 @@ def explore(p, seed, vh, sdir, tag):
     vlib.log("[C17] J2 graph walk on the real app: %s" % json.dumps(gstats, sort_keys=True))
     if gstats.get("steps", 0) + gstats.get("unreached_edges", 0) != n_edges:
         raise vlib.Inconclusive("graph walk executed %s of %d edges" % (gstats, n_edges))
-    if gstats.get("representative_mismatch"):
-        raise vlib.Inconclusive("graph walk: %d states reached with differing store bytes" % gstats["representative_mismatch"])
+    # a store that differs from the model (or from the representative of its abstract state) is drift, never a
+    # reason to stop: every step was recorded from the actual state and is judged by TLC below
+    walk_drift = {k: gstats.get(k, 0) for k in ("differs_from_model", "representative_mismatch",
+                                                "rematerialise_mismatch", "unreached_edges") if gstats.get(k)}
+    if walk_drift:
+        vlib.log("DRIFT graph walk: %s" % json.dumps(walk_drift, sort_keys=True))
     scripts = random_scripts(p, seed, p["n_paths"], p["path_len"])
     with open(f("scripts.ndjson"), "w") as fh:
         for sc in scripts:
@@ -515,7 +519,7 @@ def explore(p, seed, vh, sdir, tag):
         "traces": gstats.get("segments", 0) + 1 + pstats.get("segments", 0) + dstats.get("segments", 0),
         "evaluations": gstats.get("steps", 0) + pstats.get("steps", 0) + dstats.get("steps", 0),
         "nq": nq, "n_ct": n_ct, "distinct": len(accepted_pairs) + len(judged_states), "samples": samples,
-        "drift": drift, "selftest": st, "lines": nlines,
+        "drift": drift, "walk_drift": walk_drift, "selftest": st, "lines": nlines,
         "config": {"owners": p["owners"], "serials": {s: DEC[s] for s in p["serials"]}, "max_ops": p["max_ops"],
                    "page_sizes": p["page_sizes"], "page_modes": ["key", "total", "offset"], "bodies": p["bodies"],
                    "keyorder": ["%s/%s" % k for k in keyorder]},
@@ -561,7 +565,10 @@ def run(pid, tier, seed, replay):
                 "delivered in blocks with commits and ABCI queries. distinct_nontrivial = distinct (source registry, "
                 "accepted transaction) pairs + distinct non-empty registries on which all queries (filters x page sizes x "
                 "paging styles, iterators, lookups) were judged",
-        "samples": main["samples"], "exhaustive": True, "drift_steps": sum(x["drift"] for _, x in allparts),
+        "samples": main["samples"],
+        "exhaustive": all(not x["walk_drift"].get("unreached_edges") for _, x in allparts),
+        "drift_steps": sum(x["drift"] for _, x in allparts),
+        "graph_walk_drift": {tag: x["walk_drift"] for tag, x in allparts},
         "binding_selftest": main["selftest"],
         "configs": {tag: x["config"] for tag, x in allparts},
         "j1": {tag: x["j1"] for tag, x in allparts},
